@@ -51,13 +51,22 @@ def the_outcomes(db: ProgramDB):
         raise AnalysisError(f"{callee.qualname}: expected one loop over the child's solutions, found {len(sol_loops)}")
     loop = sol_loops[0]
     results = {}
-    for N in (0, 1, 2):
-        entry_flags = {FALSE}
-        done_flags: Set = set()
-        outcomes: Set[Tuple[str, str]] = set()
-        while entry_flags - done_flags:
-            flag = sorted(entry_flags - done_flags, key=str)[0]
-            done_flags.add(flag)
+    # the flag an evaluation leaves behind is the flag the next one starts with - whatever number of solutions the next one
+    # finds (the data may have changed, or the quantifier is nested and evaluated once per binding of the enclosing query):
+    # the set of entry flags is closed over ALL solution counts together.
+    entry_flags = {FALSE}
+    done: Set = set()
+    acc: Dict[int, Set[Tuple[str, str]]] = {0: set(), 1: set(), 2: set()}
+    seen_flags: Dict[int, Set] = {0: set(), 1: set(), 2: set()}
+    while True:
+        todo = [(N, f) for N in (0, 1, 2) for f in sorted(entry_flags, key=str) if (N, f) not in done]
+        if not todo:
+            break
+        for N, flag in todo:
+            done.add((N, flag))
+            seen_flags[N].add(flag)
+            outcomes = acc[N]
+            done_flags = seen_flags[N]
 
             def post_hook(node, st_in, st_out, ev):
                 return st_out
@@ -110,7 +119,8 @@ def the_outcomes(db: ProgramDB):
                 outcomes.add(("returns", "None (falls off the end)"))
             entry_flags = {f for f in entry_flags if f in (TRUE, FALSE)} | ({TRUE, FALSE} if any(
                 f not in (TRUE, FALSE) for f in entry_flags) else set())
-        results[N] = (outcomes, sorted(fmt(f) for f in done_flags))
+    for N in (0, 1, 2):
+        results[N] = (acc[N], sorted(fmt(f) for f in seen_flags[N]))
     return callee, results
 
 
